@@ -9,6 +9,7 @@ Next == x < MaxV /\ x' = x + 1
 Spec == Init /\ [][Next]_x
 LemmaInv == /\ (x = 0 => FieldLemmas /\ TableLemmas /\ EncodeLemmas /\ MaskLemmas)
             /\ (x >= 1 => LayoutLemmas(x))
+            /\ (x \in {1, 2, 7} => PenaltyLemma(Layout(x)))
 \* Berlekamp-Massey on a known codeword: corrects floor(d/2) errors, gives up beyond
 BMLemma == x # 0 \/
   LET d == 10 data == <<32, 91, 11, 120, 209, 114, 220, 77, 67, 64, 236, 17, 236, 17, 236, 17>>
